@@ -1,6 +1,7 @@
 (** Property C04 -- printing, auto-wrap, insert mode and charsets.
     Only pinned statements, closed by [exact], with their assumptions printed. *)
 From Avt Require Import Oracles.Step Proofs.Inv Proofs.VisEq Proofs.BufRow Proofs.SpecPrint.
+From Avt Require Import Gen.BufFns Proofs.BufTie.
 
 (** the DEC special graphics table regenerated from the source is the VT100 table of the specification, for every character *)
 Theorem C04_charset : forall cs c, translate cs c = Ok (spec_translate cs c).
@@ -25,3 +26,15 @@ Theorem C04_statement : forall p p' t f t', TInv t -> execute t f = Ok t' -> hol
 Proof. exact C04_holds. Qed.
 Check C04_statement : forall p p' t f t', TInv t -> execute t f = Ok t' -> holds_C04 (mkVt p t) f (mkVt p' t') = true.
 Print Assumptions C04_statement.
+
+(** SOURCE TIE BY PROOF: the function is REGENERATED from the Rust source on every run (Gen/BufFns.v, translate/buf2coq.py: slice and Vec idioms into the model's list primitives, every Rust panic condition as a guard) and the hand-written model function is proved equal to it (=~ : equal up to the panic-site number) - an edit to the Rust function breaks this theorem (Buffer::print / Line::print) *)
+Theorem C04_source_print : forall b col row c, g_buffer_print b col row c =~ buf_print b col row c.
+Proof. exact tie_buffer_print. Qed.
+Check C04_source_print : forall b col row c, g_buffer_print b col row c =~ buf_print b col row c.
+Print Assumptions C04_source_print.
+
+(** Line::insert (rotate_right + fill) *)
+Theorem C04_source_line_insert : forall l col n c, g_line_insert l col n c =~ line_insertM col n c l.
+Proof. exact tie_line_insert. Qed.
+Check C04_source_line_insert : forall l col n c, g_line_insert l col n c =~ line_insertM col n c l.
+Print Assumptions C04_source_line_insert.
